@@ -855,7 +855,7 @@ func (t *c01tr) canon() string {
 }
 
 func C01(c *core.Ctx) {
-	c.Rule = "generated module sets: a main module whose body is built from leaves, containers, keyed lists and uses of groupings placed at module level, in the using container (sibling scope), in a submodule and in an imported module (prefixed uses), groupings nested in groupings, a grouping used several times with different refines (description, default, mandatory, config, min-elements incl. 0, max-elements) and uses-augments (into containers and lists of the copy), module-level augments into plain and into grouping-expanded containers in textual order, config false stated on some nodes; the compiled tree (kind, name, order, effective config, description, default, mandatory, min-/max-elements of every node) compared with the Lean expansion of the factored form, with the harness's own expansion, and with the compiled tree of the same schema written inline without any grouping, augment or second file. non-trivial = module set with ≥2 uses, ≥1 refine and ≥1 augment; distinct by module set"
+	c.Rule = "generated module sets: a main module whose body is built from leaves, containers, keyed lists and uses of groupings placed at module level, in the using container (sibling scope), in a submodule and in an imported module (prefixed uses), groupings nested in groupings, a grouping used several times with different refines (description, default, mandatory, config, min-elements incl. 0, max-elements) and uses-augments (into containers and lists of the copy), module-level augments into plain and into grouping-expanded containers in textual order, config false stated on some nodes; the compiled tree (kind, name, order, effective config, description, default, mandatory, min-/max-elements of every node) compared with the Lean expansion of the factored form, with the harness's own expansion, and with the compiled tree of the same schema written inline without any grouping, augment or second file; also: a leaf, container or list named like the grouping used next to it, a uses whose augment uses the same grouping again, a module grouping named like the imported grouping it wraps, presence stated and refined, leaves guarded by an enabled feature of the module (the load has imports). non-trivial = module set with ≥2 uses, ≥1 refine and ≥1 augment; distinct by module set"
 	c.Assumptions = append(c.Assumptions,
 		"every leaf is of type string (types are C02); if-feature, choice/case, deviations and rpc/notification content are not generated here (C11 covers feature guards, C09/C06 choices)",
 		"explicit 'config true' is never written (only 'config false'), so every generated module set is valid wherever a grouping is used")
